@@ -81,10 +81,29 @@ def main():
     except fw.HarnessError as e:
         print('HARNESS-ERROR property=%s %s' % (pid, str(e)[:4000]))
         rc = 2
-    except Exception:
-        print('HARNESS-ERROR property=%s' % pid)
-        traceback.print_exc()
-        rc = 2
+    except Exception as e:
+        # An exception that escaped from the implementation (a frame of the traceback lies in $VERIF_REPO) while the
+        # harness was executing a case that runs cleanly on the unchanged tree: the property is no longer shown to
+        # hold.  The input that was being executed is not captured here, hence no-failing-input-found; the replay
+        # file holds the traceback.  An exception that never touched the implementation is a harness defect.
+        tb = traceback.extract_tb(e.__traceback__)
+        repo = os.path.realpath(fw.REPO)
+        in_repo = [f for f in tb if os.path.realpath(f.filename).startswith(repo + os.sep)]
+        if in_repo and not args.replay:
+            path = fw.write_replay(pid, {
+                'property': pid, 'kind': 'obligation',
+                'no_longer_checks': ['the implementation raised %s at %s:%d (%s) while the harness executed its cases; '
+                                     'the correspondence could not be evaluated' % (
+                                         type(e).__name__, in_repo[-1].filename, in_repo[-1].lineno, in_repo[-1].name)],
+                'traceback': traceback.format_exc()[-6000:]})
+            print('VIOLATION property=%s replay=%s no-failing-input-found' % (pid, path))
+            print('%s tier=%s seed=%d implementation raised %s during case generation -> FAIL' % (
+                pid, args.tier, seed, type(e).__name__))
+            rc = 1
+        else:
+            print('HARNESS-ERROR property=%s' % pid)
+            traceback.print_exc()
+            rc = 2
     finally:
         fw.cleanup(workdir)
     sys.exit(rc)
